@@ -20,7 +20,7 @@ func init() {
 			"R13-poolrelease — a call-frame segment handed back to the shared sync.Pool is not used, nor is an address into it returned, on any later path of the releasing function; R13-sendguard — every Lua value placed in a channel send position passed isGoroutineSafe with a raising arm, isGoroutineSafe rejects functions, userdata, threads and tables with metatables, and no blocking channel operation sits in a loop (send/receive/close map 1:1 to Go channel operations). " +
 			"NOT decided: race freedom of heap objects reachable through values, ordering and exactly-once delivery (trusted to the Go runtime once the 1:1 mapping holds).",
 		Trusted: []string{"exported configuration variables (RegistrySize, MaxArrayIndex, …) are set by the embedder before states run"},
-		Rules:   []func(*Ctx){ruleGlobals, ruleProto, ruleSendGuard, rulePoolRelease, ruleSharedRand, ruleStdStreams},
+		Rules:   []func(*Ctx){ruleGlobals, ruleProto, ruleSendGuard, rulePoolRelease, ruleSharedRand, ruleStdStreams, ruleFreeAllOnlyOnClose},
 	})
 }
 
@@ -120,6 +120,22 @@ func ruleGlobals(c *Ctx) {
 					if u, ok := x.Call.Args[0].(*ssa.UnOp); ok {
 						if gl, ok := u.X.(*ssa.Global); ok && globals[gl] && !init {
 							writes[gl] = append(writes[gl], p.ipos(in)+" in "+fname(fn)+" ("+bi.Name()+")")
+						}
+					}
+				}
+				// append/copy into a slice of a package-level array or slice: the elements are written in place
+				// (`append(scratch[:0], b)` reuses the backing store of the global)
+				if bi, ok := x.Call.Value.(*ssa.Builtin); ok && (bi.Name() == "append" || bi.Name() == "copy") && !init {
+					if sl, ok := x.Call.Args[0].(*ssa.Slice); ok {
+						var gl *ssa.Global
+						switch b := sl.X.(type) {
+						case *ssa.Global:
+							gl = b
+						case *ssa.UnOp:
+							gl, _ = b.X.(*ssa.Global)
+						}
+						if gl != nil && globals[gl] {
+							writes[gl] = append(writes[gl], p.ipos(in)+" in "+fname(fn)+" ("+bi.Name()+" into a slice of it)")
 						}
 					}
 				}
